@@ -278,7 +278,7 @@ def stepCore (e : Env) (line : String) : Env × String :=
       pure (bind1 e xn x, "ok")
     | ["fn.addpoint", f, x, g, v] =>
       let hf ← lookup e f; let hx ← lookup e x; let hg ← lookup e g; let hv ← lookup e v
-      let (_, e) ← runM e (addPoint hf ⟨hx, hg, hv⟩)
+      let (_, e) ← runM e (addPoint hf (Triple.mk3 hx hg hv))
       pure (e, "ok")
     | ["fn.addcons", f, c] =>
       let hf ← lookup e f; let hc ← lookup e c
